@@ -929,6 +929,96 @@ def reg_to_image_stack_plumbing(R):
     )
 
 
+# =========================================================================== TeraflyImageStack.__getitem__ (lazy stack: dispatch of the key only)
+def tg_setup(kind):
+    def f(S):
+        from swcgeom.images.io import TeraflyImageStack
+
+        res = NArr((2, 3), [S.int(f"res{k}") for k in range(6)], "int")
+        res.frozen = True
+        for r in res.items:
+            S.assume(r.z >= 1)
+        self = S.obj(TeraflyImageStack, res=res, dtype=np.uint8)
+        self.frozen = True
+        g = dict(res=res, kind=kind)
+        if kind == "ints":
+            key = tuple(S.int(n) for n in "xyzc")
+        elif kind == "3-slices":
+            key = tuple(slice(S.int(f"lo{k}"), S.int(f"hi{k}"), None) for k in range(3))
+        elif kind == "4-slices":
+            key = tuple(slice(S.int(f"lo{k}"), S.int(f"hi{k}"), None) for k in range(3)) + (slice(None, None, None),)
+        elif kind == "one-slice":
+            key = slice(None, None, None)
+        else:
+            key = S.int("x")
+        g["key"] = key
+        return dict(self=self, key=key, __ghost__=g)
+
+    return f
+
+
+def tg_patch_result(S, fr):
+    a = ImgArr.source(dims_of(S, ["px", "py", "pz", "pc"]), "uint8", "patch")
+    S.eng.ghost["patch_result"] = a
+    return a
+
+
+def tg_asks(E, v, o):
+    """which region of the finest level is requested: [x, x+1) x [y, y+1) x [z, z+1) for an integer key; the clamped slice ranges for a slice key"""
+    cs = calls(E, "TeraflyImageStack.get_patch")
+    if len(cs) != 1 or cs[0]["self"] is not v["self"]:
+        return False
+    kind, key, res = E.spec_extra["kind"], E.spec_extra["key"], E.spec_extra["res"]
+    finest = [zi(t) for t in res.items[3:]]
+
+    def vec(x):
+        items = x.items if isinstance(x, (PList, NArr)) else list(x)
+        return [to_z3(t, "int") for t in items]
+
+    starts, ends = vec(cs[0]["starts"]), vec(cs[0]["ends"])
+    if len(starts) != 3 or len(ends) != 3:
+        return False
+    if kind == "ints":
+        want_s = [zi(k) for k in key[:3]]
+        want_e = [zi(k) + 1 for k in key[:3]]
+        st_ok = cs[0]["strides"] == 1
+    else:
+        want_s = [clamp_spec(k.start, n, z3.IntVal(0)) for k, n in zip(key[:3], finest)]
+        want_e = [clamp_spec(k.stop, n, n) for k, n in zip(key[:3], finest)]
+        st = cs[0]["strides"]
+        st_ok = z3.And(*[t == 1 for t in vec(st)]) if not isinstance(st, int) else st == 1
+    return B.conj(st_ok, cs[0]["res_level"] == -1, *[a == b for a, b in zip(starts + ends, want_s + want_e)])
+
+
+def tg_result(E, v, o):
+    patch, r = E.ghost.get("patch_result"), v["result"]
+    if patch is None:
+        return False
+    if E.spec_extra["kind"] == "ints":
+        return isinstance(r, Sym) and r.z == patch.elem([z3.IntVal(0)] * 4)
+    return r is patch
+
+
+def reg_terafly_getitem(R):
+    R.add(f"{IO}:TeraflyImageStack.get_patch", prop="C20", trusted=True, returns=tg_patch_result, ensures=[],
+          notes="assumed: returns an (X, Y, Z, C) patch (assembling it from the tile files - directory listings, name arithmetic, recursion over tiles - is out of reach)")
+    # FINDING: the documented patch key imgs[a:b, c:d, e:f, :] raises IndexError: `k.indices(self.res[-1][i]) for i, k in enumerate(key)` asks the
+    # 3-entry resolution row for a 4th extent (replayed natively); obligation exc/IndexError-only-when-allowed fails in variant [a:b,c:d,e:f,:]
+    R.add(
+        f"{IO}:TeraflyImageStack.__getitem__",
+        prop="C20",
+        variants={"[x,y,z,c]": tg_setup("ints"), "[a:b,c:d,e:f]": tg_setup("3-slices"), "[a:b,c:d,e:f,:]": tg_setup("4-slices"),
+                  "[:]-not-a-tuple": tg_setup("one-slice"), "[x]-not-a-tuple": tg_setup("int")},
+        raises={"IndexError": ("only-for-a-key-that-is-not-a-tuple-(documented-refusal-to-load-everything)", lambda E, v, o: not isinstance(E.spec_extra["key"], tuple)),
+                "ValueError": ("only-when-the-patch-handed-back-for-an-integer-key-is-not-a-single-voxel", lambda E, v, o: E.spec_extra["kind"] == "ints")},
+        ensures=[
+            ("asks-get_patch-once-for-the-keyed-region-of-the-finest-level-stride-1", tg_asks),
+            ("returns-the-patch-(its-single-voxel-for-an-integer-key)", tg_result),
+        ],
+        notes="the documented examples imgs[0, 0, 0, 0] and imgs[0:64, 0:64, 0:64, :]; get_patch is an assumed contract",
+    )
+
+
 def register(R):
     reg_ndarray_access(R)
     reg_nrrd(R)
@@ -936,6 +1026,7 @@ def register(R):
     reg_terafly_bits(R)
     reg_read_imgs(R)
     reg_gray(R)
+    reg_terafly_getitem(R)
     reg_to_image_stack_plumbing(R)
 
 
